@@ -229,7 +229,9 @@ def stepLine (ds : DS) (line : String) : DS × String :=
   | name :: rest =>
     match splitArrow rest with
     | none => (ds, "bad-op")
-    | some (ins, impl) =>
+    | some (ins0, impl) =>
+      -- the trailing history tag of an operation line is not part of the case
+      let ins := ins0.filter (fun f => !f.startsWith "h=")
       if name == "C10.reset" then
         let parsed := runP (do
           let gw ← pNat
